@@ -106,12 +106,7 @@ theorem am_loop_full (L : Nat) :
       unfold Gen.K11b.extractBits_body5
       dsimp only
       have q : Int.tdiv (i : Int) 15 = ((i / 15 : Nat) : Int) := tdiv_natCast i 15
-      rw [q, setIdx_nat st _ _ (oc - i - 1) (by omega) (by omega)]
-      simp only [tryC_ok]
-      rw [setIdx_nat _ _ _ (oc + i) (by omega) (by simp; omega)]
-      simp only [tryC_ok]
-      refine ⟨_, rfl, by simp [hlen], ?_⟩
-      intro idx h1 h2
+      rw [q]
       have hA1 : ((center : Int) - ((i : Int) + ((i / 15 : Nat) : Int)) - 1) = ((alignmentMap L false (oc - i - 1) : Nat) : Int) := by
         simp only [alignmentMap, matrixSize, Bool.false_eq_true, if_false]
         have : oc - i - 1 < baseMatrixSize L false / 2 := by omega
@@ -123,13 +118,26 @@ theorem am_loop_full (L : Nat) :
         simp only [this, if_false]
         omega
       rw [hA1, hA2]
+      -- the two assignments, in either order
+      first
+        | (rw [setIdx_nat st _ _ (oc - i - 1) (by omega) (by omega)]
+           simp only [tryC_ok]
+           rw [setIdx_nat _ _ _ (oc + i) (by omega) (by simp; omega)]
+           simp only [tryC_ok])
+        | (rw [setIdx_nat st _ _ (oc + i) (by omega) (by omega)]
+           simp only [tryC_ok]
+           rw [setIdx_nat _ _ _ (oc - i - 1) (by omega) (by simp; omega)]
+           simp only [tryC_ok])
+      refine ⟨_, rfl, by simp [hlen], ?_⟩
+      intro idx h1 h2
+      simp only [List.getElem?_set, List.length_set]
       by_cases c1 : idx = oc + i
       · subst c1
-        rw [List.getElem?_set_self (by simp; omega)]
+        simp (disch := omega) only [if_pos, if_neg, if_true]
       · by_cases c2 : idx = oc - i - 1
         · subst c2
-          rw [List.getElem?_set_ne (by omega), List.getElem?_set_self (by omega)]
-        · rw [List.getElem?_set_ne (by omega), List.getElem?_set_ne (by omega)]
+          simp (disch := omega) only [if_pos, if_neg, if_true]
+        · simp (disch := omega) only [if_neg]
           exact hp idx (by omega) (by omega))
   have e0 : ((0 : Nat) : Int) = 0 := rfl
   rw [e0] at e
